@@ -30,7 +30,9 @@ def gen(rng, tier, run):
     shape = [rng.choice([1, 1, 2, 3, 4, 5, 6]) for _ in range(ndim)]
     kinds = [rng.choice('ec') for _ in range(ndim)]
     slices = [[bound(rng, n), bound(rng, n)] if rng.random() < 0.8 else [None, None] for n in shape]
-    return {'shape': shape, 'kinds': kinds, 'slices': slices}
+    # an explicitly written unit step is a unit step too (ds[-2::1])
+    return {'shape': shape, 'kinds': kinds, 'slices': slices,
+            'steps': [1 if rng.random() < 0.3 else None for _ in shape]}
 
 
 def exhaustive(tier, run):
@@ -45,6 +47,7 @@ def exhaustive(tier, run):
             for st in bounds(n):
                 for sp in bounds(n):
                     yield {'shape': [n], 'kinds': [kind], 'slices': [[st, sp]]}
+                    yield {'shape': [n], 'kinds': [kind], 'slices': [[st, sp]], 'steps': [1]}
     for shape in itertools.product([1, 2, 3], repeat=2):
         for kinds in itertools.product('ec', repeat=2):
             axes = [[(a, b) for a in bounds(n) for b in bounds(n)] for n in shape]
@@ -96,7 +99,8 @@ def run_impl(case, run):
     dset = Dataset(value, error, bins=bins, name='n', what='w')
     before = (value.copy(), error.copy(), [(k, v.copy()) for k, v in bins.items()])
     out = {}
-    index = tuple(slice(a, b) for a, b in case['slices'])
+    steps = case.get('steps') or [None] * len(case['slices'])
+    index = tuple(slice(a, b, st) for (a, b), st in zip(case['slices'], steps))
     if len(index) == 1 and run.rng.random() < 0.5:
         index = index[0]
     try:
